@@ -185,6 +185,11 @@ fn check(case: &Case, obs: &mut Obs) -> PropResult {
 	client.push(("META-INF/MOJANGCS.SF".into(), Entry::Other(b"sig".to_vec())));
 	client.push(("META-INF/MOJANGCS.RSA".into(), Entry::Other(b"rsa".to_vec())));
 	server.push(("META-INF/OTHER.SF".into(), Entry::Other(b"sig2".to_vec())));
+	// signer aliases containing dots: the extension is what follows the *last* dot
+	client.push(("META-INF/CODESIGN.V2.SF".into(), Entry::Other(b"sig3".to_vec())));
+	server.push(("META-INF/MOJANG_C.1.RSA".into(), Entry::Other(b"rsa2".to_vec())));
+	client.push(("META-INF/A.B.C.RSA".into(), Entry::Other(b"rsa3".to_vec())));
+	server.push(("META-INF/A.B.C.RSA".into(), Entry::Other(b"rsa3".to_vec())));
 	struct Info {
 		presence: Presence,
 		c: Option<(CClass, Vec<u8>)>,
